@@ -23,6 +23,7 @@ static const uint32_t kMagic = dmlc::RecordIOWriter::kMagic;
 struct RecHarness : vh::Harness {
   std::string prop;
   std::string buf;                    // the stream image
+  std::unique_ptr<dmlc::MemoryStringStream> early;   // see begin_case
   std::unique_ptr<dmlc::MemoryStringStream> strm;
   std::unique_ptr<dmlc::RecordIOWriter> writer;
   std::vector<std::string> written;   // records accepted by WriteRecord
@@ -33,6 +34,7 @@ struct RecHarness : vh::Harness {
   void begin_case(const Case &) override {
     buf.clear();
     strm.reset(new dmlc::MemoryStringStream(&buf));
+    early.reset(new dmlc::MemoryStringStream(&buf));   // a second stream on the same string, made before any write
     writer.reset(new dmlc::RecordIOWriter(strm.get()));
     written.clear();
     starts.clear();
@@ -145,6 +147,19 @@ struct RecHarness : vh::Harness {
         if (reader.NextRecord(&rec)) return "not-sticky-eos";
       } catch (const dmlc::Error &) {
         return "invalid";
+      }
+      // the same records through the stream object that was constructed on the (then empty) string before the
+      // writes went through the other stream: a MemoryStringStream is a view of the string, not a snapshot
+      if (!has_raw) {
+        std::vector<std::string> recs2;
+        try {
+          early->Seek(0);
+          dmlc::RecordIOReader r2(early.get());
+          while (r2.NextRecord(&rec)) recs2.push_back(rec);
+        } catch (const dmlc::Error &) {
+          return "early-stream-invalid";
+        }
+        if (recs2 != recs) return "early-stream-differs " + show(recs2).substr(0, 200);
       }
       return show(recs);
     }
